@@ -436,6 +436,67 @@ example :
     r2.2.ret = .err ∧ r2.2.sub = 8 ∧ r2.2.runs = [2, 2] ∧ r2.2.elive = 0 ∧
     r2.1.live "z" = [⟨"z", 7, 2⟩] ∧ r2.1.live "a" = [] ∧ r2.1.estreams = ["z"] := by decide
 
+/-- **C09 (b), late sends.** However sends of a session (each registering its fresh stream, or - when another send to the same peer registered
+    first - closing it) interleave with releases
+    of that session - any number of either, in any order - no stream is ever dropped from the manager without having
+    been closed: every opened stream is registered or closed. (`release` is ONE critical section.) -/
+theorem no_stream_lost (evs : List SEv) (hreal : ∀ e ∈ evs, e.real = true) : (SMgr.run evs).NoneLost := by
+  have key : ∀ (m : SMgr), m.NoneLost → (∀ e ∈ evs, e.real = true) → (evs.foldl SMgr.step m).NoneLost := by
+    induction evs with
+    | nil => intro m h _; exact h
+    | cons e es ih =>
+      intro m h hr
+      apply ih (hreal := fun x hx => hr x (List.mem_cons_of_mem _ hx)) (m.step e) _ (fun x hx => hr x (List.mem_cons_of_mem _ hx))
+      have he := hr e (List.mem_cons_self ..)
+      cases e with
+      | add i =>
+        intro j hj
+        simp only [SMgr.step, List.mem_cons] at hj ⊢
+        rcases hj with rfl | hj
+        · exact Or.inl (Or.inl rfl)
+        · rcases h j hj with h' | h'
+          · exact Or.inl (Or.inr h')
+          · exact Or.inr h'
+      | dup i =>
+        intro j hj
+        simp only [SMgr.step, List.mem_cons] at hj ⊢
+        rcases hj with rfl | hj
+        · exact Or.inr (Or.inl rfl)
+        · rcases h j hj with h' | h'
+          · exact Or.inl h'
+          · exact Or.inr (Or.inr h')
+      | dupKept i => cases he
+      | release =>
+        intro j hj
+        simp only [SMgr.step] at hj ⊢
+        rcases h j hj with h' | h'
+        · exact Or.inr (List.mem_append_left _ h')
+        · exact Or.inr (List.mem_append_right _ h')
+      | snap => cases he
+      | closeSnap => cases he
+      | del => cases he
+  exact key _ (by intro i hi; cases hi) hreal
+
+/-- the seeded variant re-derived (corpus line `latesend -`): a stream registered between the snapshot and the delete
+    is dropped unclosed -/
+theorem snapshot_release_loses : ¬ (SMgr.run [.add 1, .snap, .add 2, .closeSnap, .del]).NoneLost := by decide
+
+/-- as found (repaired by `fix: a send that loses the race for a session's stream slot closes its own stream`; corpus
+    line `twosends 2`): the stream of a send that lost the registration race stayed open for ever -/
+theorem asfound_duplicate_send_leaks : ¬ (SMgr.run [.add 1, .dupKept 2, .release]).NoneLost := by decide
+
+example : (SMgr.run [.add 1, .release, .add 2, .add 3, .release, .add 4]).reg = [4] ∧
+    (SMgr.run [.add 1, .release, .add 2, .add 3, .release, .add 4]).closed = [3, 2, 1] := by decide
+
+/-- **C09 (b), global time-out.** Fail messages that are ignored do not postpone the time-out: it comes `T` after the
+    watch started, for every sequence of arrivals. -/
+theorem timeout_not_postponed (T : Nat) (foreign : List Nat) : watchEnd T foreign = T := rfl
+
+/-- the seeded variant re-derived (corpus line `sess a:p:1:gtoforeign`): re-arming on every ignored message, one
+    message every 20 ms keeps a 100 ms time-out away for as long as the messages keep coming -/
+theorem rearmed_timeout_recedes :
+    watchEndRearmed 100 100 ((List.range 50).map (fun k => 20 * (k + 1))) = 1100 := by decide
+
 /-- **C09 (b), retried process.** A process object that is Run any number of times (the coordinator's retry rounds)
     and then stopped once leaves the subscription registry exactly as it found it. -/
 theorem rerun_releases_all (r : Reg) (sid : Sid) (n : Nat) (hf : r.Fresh) :
